@@ -368,6 +368,11 @@ func (e *Exec) derefLoc(st *State, p Value, at ast.Node) Loc {
 		if hl, ok := v.Loc.(*HeapLoc); ok && hl.Path == "" && at != nil {
 			e.safety(st, "nil", mkNe(hl.Ref, tZero), at)
 		}
+		if ml, ok := v.Loc.(*MemLoc); ok && at != nil {
+			if _, isInt := interiorElem(v.Typ); isInt && !(ml.Arr.Op == "var") {
+				e.safety(st, "nil", mkNe(ml.Arr, tZero), at)
+			}
+		}
 		return v.Loc
 	case Scalar:
 		pt, ok := v.Typ.Underlying().(*types.Pointer)
@@ -552,6 +557,11 @@ func (e *Exec) equalValues(st *State, a, b Value, n ast.Node) *Term {
 		case PtrVal:
 			if hl, ok := y.Loc.(*HeapLoc); ok && hl.Path == "" {
 				return mkEq(hl.Ref, tZero)
+			}
+			if ml, ok := y.Loc.(*MemLoc); ok {
+				if _, isInt := interiorElem(y.Typ); isInt {
+					return mkEq(ml.Arr, tZero)
+				}
 			}
 			return tFalse
 		case Scalar:
@@ -956,6 +966,11 @@ func (e *Exec) box(st *State, v Value, to types.Type) Value {
 		st.assume(mkEq(dynType(r), typeIdTerm(vt)))
 		e.boxedVals[r.Name] = v
 		e.encodingFacts(st, r, v)
+		// the boxed copy is also readable through cast(x, "T") in contracts: heap object at the fresh ref
+		switch v.(type) {
+		case StructVal, SliceVal:
+			e.storeLoc(st, &HeapLoc{Fam: heapFamily(vt), Ref: r, Typ: vt}, v)
+		}
 		return Scalar{r, to}
 	case ClosureVal:
 		r := e.freshRef(st, "boxedfn")
